@@ -889,7 +889,7 @@ func c13Coalesce(c *core.Ctx, k *tkit) {
 	bnd := &cond{name: "boundary-timestamps"}
 	if ok {
 		const lo, hi = int64(-1 << 63), int64(1<<63 - 1)
-		qs := []int64{lo + 1, lo + 2, -1, 0, 1, hi - 2, hi - 1}
+		qs := []int64{lo, lo + 1, -1, 0, 1, hi - 1, hi}
 		var ivs []iv
 		for i, a := range qs {
 			for _, b := range qs[i:] {
